@@ -624,6 +624,35 @@ func init() {
 	}
 }
 
+func init() {
+	// ties whose deciding non-zero tail digit sits around the 800-digit capacity of the slow path
+	suites["c04edge"] = func(e *emitter, r *rng, thorough bool) {
+		halves := []string{"9007199254740993", "9007199254740995", "4503599627370496.5", "4503599627370497.5", "18014398509481986", "1.5", "2.5", "0.5"}
+		for _, h := range halves {
+			sig := len(strings.ReplaceAll(strings.TrimLeft(h, "0."), ".", ""))
+			for total := 790; total <= 806; total++ {
+				z := total - sig - 1
+				if z < 0 {
+					continue
+				}
+				for _, tail := range []string{"1", "5", "9", "0"} {
+					for _, sg := range []string{"", "-"} {
+						lit := sg + h
+						if !strings.Contains(h, ".") {
+							lit += "."
+						}
+						lit += strings.Repeat("0", z) + tail
+						e.emit("f64 %s", hs([]byte(lit)))
+						e.emit("fp_parse %s", hs([]byte(lit)))
+						e.emit("fp_dec %s", hs([]byte(lit)))
+					}
+				}
+			}
+		}
+		// the same ties scaled by large powers of two written out in full are in the "half" family of "fp"
+	}
+}
+
 var fpGapCap800 = []string{
 	"9007199254740993" + strings.Repeat("0", 785) + "e-785", // = 2^53+1 exactly; code: off by a factor 10
 	"9007199254740993" + strings.Repeat("0", 790) + "e-790",
